@@ -666,6 +666,15 @@ impl MdkMemoryStorage {
     /// * `snapshot` - The group-scoped snapshot to restore from.
     pub fn restore_group_scoped_snapshot(&self, snapshot: GroupScopedSnapshot) {
         let mut inner = self.inner.write();
+        Self::restore_group_scoped_snapshot_locked(&mut inner, snapshot);
+    }
+
+    /// Body of [`Self::restore_group_scoped_snapshot`], for callers that already hold the
+    /// write lock.
+    fn restore_group_scoped_snapshot_locked(
+        inner: &mut MdkMemoryStorageInner,
+        snapshot: GroupScopedSnapshot,
+    ) {
         let group_id = &snapshot.group_id;
 
         // MLS storage uses MlsCodec serialization for group_id keys.
@@ -801,13 +810,26 @@ impl MdkStorageProvider for MdkMemoryStorage {
         name: &str,
     ) -> Result<(), MdkStorageError> {
         let key = (group_id.clone(), name.to_string());
-        // Remove and restore the snapshot (consume it)
-        let snapshot = self
-            .group_snapshots
-            .write()
-            .remove(&key)
+        let mut snapshots = self.group_snapshots.write();
+        let mut inner = self.inner.write();
+        let snapshot = snapshots
+            .get(&key)
             .ok_or_else(|| MdkStorageError::NotFound("Snapshot not found".to_string()))?;
-        self.restore_group_scoped_snapshot(snapshot);
+        // Same rule as save_group (and the UNIQUE index of the SQLite backend): a Nostr group
+        // id routes to at most one group. If another group has taken the snapshot's id in the
+        // meantime, refuse and keep everything as it is instead of re-pointing that id.
+        if let Some(group) = &snapshot.group
+            && let Some(owner) = inner.groups_by_nostr_id_cache.peek(&group.nostr_group_id)
+            && owner.mls_group_id != *group_id
+        {
+            return Err(MdkStorageError::Other(
+                "nostr_group_id of the snapshot is in use by a different group".to_string(),
+            ));
+        }
+        // Remove and restore the snapshot (consume it)
+        if let Some(snapshot) = snapshots.remove(&key) {
+            Self::restore_group_scoped_snapshot_locked(&mut inner, snapshot);
+        }
         Ok(())
     }
 
